@@ -1,5 +1,5 @@
 """C10 -- graceful stop answers received calls; `stopped` resolves only when everything is done."""
-import json, re
+import json, os, re
 import vlib
 
 TRANSLATORS = []
@@ -11,7 +11,10 @@ RULE = ("cases = scripted stop histories (open HTTP/WS connections, send calls w
         "server's internal steps; the implementation's line must be a member (diff) and must satisfy the property "
         "restated on it alone (oracle).  Families: stop inserted at every position of base histories; calls not yet "
         "read / executing / returned-but-unsent / answered at the stop; 0..3 connections, subscriptions open; client "
-        "disconnects; second stop, clone/drop of handles, calls sent after `stopped`; a few histories that wait for "
+        "disconnects; second stop, clone/drop of handles, calls sent after `stopped`; back-pressure: "
+        "message_buffer_capacity 1 / 2 / default with 3..8 calls executing on one WS connection all released in one step "
+        "before or after the stop, client reading normally or paused behind a 4 KiB receive buffer with 2 MiB replies "
+        "(the server's writer then really blocks); a few histories that wait for "
         "`stopped` while a handler is parked (must time out).  distinct non-trivial = distinct implementation fact "
         "lines with at least one started call or one connection")
 TRUSTED = [
@@ -28,12 +31,16 @@ ASSUMPTIONS = [
     "the histories, not exhibited by the model",
     "handlers are assumed to return (CFinish is an internal step): a handler that never returns keeps `stopped` "
     "pending for ever, by design",
-    "not modelled: ping/pong and inactivity close, bounded sink back-pressure (sink.send only waits), batches, "
+    "not modelled: ping/pong and inactivity close, batches, "
     "subscription notifications (an open subscription owns no stop/pending token), HTTP/2, partially read requests, "
     "the WS handshake seam (a WS connection starts in its reader loop)",
     "calls that the reader had not yet taken when the stop signal was observed are NOT run (WS: read and discarded "
     "during graceful shutdown; HTTP: idle connection closed) -- the property only covers handlers already started; "
     "tasks spawned for a client that has since disconnected may start after `stopped` resolved (exempt by the property text)",
+    "the bounded sink queue IS modelled (capacity = message_buffer_capacity; a returned call whose reply waits for "
+    "room keeps its pending-call token); a client that does not read only delays the model's CWrite step, so waits "
+    "for `stopped` are never scripted while the client reader is paused",
+    "the model driver gives up (TOOBIG, oracle only) on 6..8 simultaneously released calls",
     "correspondence is set membership: fact letters a/b and </> are taken from a shared sequence counter and may "
     "be skewed by the observer's scheduling; the model driver includes that lag as a step",
 ]
@@ -198,6 +205,43 @@ def gen_main(rng, parked=False):
     return h.text()
 
 
+def gen_backpressure(rng, slow=False):
+    """k calls executing on one WS connection, all released in one step around the stop, small outgoing buffer."""
+    ops = []
+    cap = rng.choice([1, 1, 2, None])
+    if cap is not None:
+        ops.append("B%d" % cap)
+    if slow:
+        ops.append("P2048")
+    ops.append("W")
+    k = rng.choice([3, 4]) if slow else rng.choice([3, 3, 4, 5, 6, 8])
+    extra_http = (not slow) and rng.random() < 0.25
+    ops.append("cW" if slow else "cw")
+    if extra_http:
+        ops.append("ch")
+    ops += ["s0"] * k
+    ops += ["a%d" % i for i in range(k)]
+    if extra_http:
+        ops += ["s1", "a%d" % k]
+    if slow:
+        ops.append("q0")
+    mode = rng.random()
+    if mode < 0.55:
+        ops += ["S"] + (["p"] if rng.random() < 0.6 else []) + ["A"]            # stop while they run, then all return
+    elif mode < 0.8:
+        ops += ["A", "S"]                                                        # all return, stop at once
+    else:
+        ops += ["A", "p", "S"]
+    if rng.random() < 0.3:
+        ops.append("S")
+    if slow:
+        ops += ["p", "p", "g0"]
+    ops.append("Z")
+    if rng.random() < 0.4:
+        ops += ["S", "cw", "s%d" % (2 if extra_http else 1)]
+    return " ".join(ops)
+
+
 def gen_insertions(rng):
     """A base history with every call waited for, and the stop inserted at every position."""
     base = []
@@ -248,7 +292,7 @@ def oracle(script, line):
     bad = []
     ops = script.split()
     dropped = set(int(o[1:]) for o in ops if o[0] == "d")
-    call_conn = [int(o[1:]) for o in ops if o[0] == "s"]
+    call_conn = [int(o[1:]) for o in ops if o[0] == "s" and o[1:].isdigit()]
     if f["extra"]:
         bad.append(("stop-panic-or-duplicate", f["extra"]))
     # hung: every wait must have been met, except a wait for `stopped` issued while a started handler on a live
@@ -260,6 +304,8 @@ def oracle(script, line):
     for i, o in enumerate(ops):
         if o[0] == "r":
             released.add(int(o[1:]))
+        elif o == "A":
+            released.update(range(len([x for x in ops[:i] if x[0] == "s"])))
         elif o == "S" and hh > 0:
             sig = True
         elif o == "W" and hh > 0:
@@ -291,10 +337,14 @@ def oracle(script, line):
         s, fin, r, late = cl[0], cl[1], cl[2], cl.endswith("L")
         if late and s != "-":
             bad.append(("call-after-stopped-executed", "call %d was sent after `stopped` resolved and its handler ran" % k))
-        if live and s == "a" and sig and r != "R":
-            bad.append(("started-call-not-answered", "call %d started before the stop and got no reply" % k))
-        if live and s == "a" and not sig and r != "R":
-            bad.append(("started-call-not-answered", "call %d got no reply (no stop at all)" % k))
+        # every call whose handler started on a connection the client kept is answered ...
+        if live and s != "-" and r == "-":
+            bad.append(("started-call-not-answered", "handler of call %d started (%s the stop signal) and the client "
+                        "never got a reply" % (k, "before" if s == "a" else "after")))
+        # ... and the answer is with the transport before `stopped` is observed
+        if live and r == "r":
+            bad.append(("answered-after-stopped", "reply to call %d reached the client more than 100 ms after "
+                        "`stopped` was observed" % k))
         if live and fin == ">":
             bad.append(("stopped-before-handlers-finished", "call %d returned after `stopped` resolved" % k))
         if live and s == "c":
@@ -327,6 +377,9 @@ def gen_cases(ctx):
         "cw W s0 a0 S p d0 p r0", "ch W s0 a0 S p d0 p r0", "cw W s0 a0 d0 p S", "cw u0 W s0 a0 S S r0 Z S D",
         "cw s0 a0 D p r0", "cw W s0 S", "ch W s0 S", "ch W s0 a0 s0 S p r0 r1", "cw W s0 a0 S s0 p r0 r1",
         "W S Z ch s0 cw s1", "cw cw cw W s0 s1 s2 a0 a1 a2 S r2 r1 r0 Z",
+        "B1 cw W s0 s0 s0 a0 a1 a2 S p A Z", "B1 cw W s0 s0 s0 s0 s0 s0 s0 s0 a0 a1 a2 a3 a4 a5 a6 a7 S p A Z",
+        "B2 cw W s0 s0 s0 s0 a0 a1 a2 a3 A S Z", "B1 P2048 cW W s0 s0 s0 a0 a1 a2 q0 S p A p p g0 Z",
+        "B1 cw W s0 s0 s0 a0 a1 a2 A S Z",
     ]
     for t in fixed:
         cases.append((t, "fixed"))
@@ -335,6 +388,10 @@ def gen_cases(ctx):
     for _ in range(ctx.scale(20, 400)):
         for t in gen_insertions(rng):
             cases.append((t, "stop-at-each-point"))
+    for _ in range(ctx.scale(70, 900)):
+        cases.append((gen_backpressure(rng), "back-pressure"))
+    for _ in range(ctx.scale(8, 60)):
+        cases.append((gen_backpressure(rng, slow=True), "back-pressure-slow-client"))
     for _ in range(ctx.scale(6, 60)):
         for _try in range(50):
             t = gen_main(rng, parked=True)
@@ -349,9 +406,14 @@ def gen_cases(ctx):
     return out
 
 
+def impl_bin():
+    """VERIF_SRVSTOP_BIN overrides the implementation binary (a harness copy built against another tree)."""
+    return os.environ.get("VERIF_SRVSTOP_BIN") or vlib.rust_bin("srvstop")
+
+
 def run(ctx):
     ctx.engines = ["srvstop (harness/src/bin/srvstop.rs: real Server, loop-back TCP) vs stop (modelrun/stop_driver.ml over coq/Model/Stop.v, set of outcomes)"]
-    impl, model = vlib.rust_bin("srvstop"), vlib.model_bin("stop")
+    impl, model = impl_bin(), vlib.model_bin("stop")
     cases = gen_cases(ctx)
     lines = [t for t, _ in cases]
     rm = vlib.run_lines([model], lines, min_shard=40)
@@ -381,7 +443,7 @@ def replay(payload):
     print(json.dumps(payload, indent=1)[:3000])
     script = case["script"] if isinstance(case, dict) else str(case)
     for i in range(5):
-        rc, out = vlib.sh([vlib.rust_bin("srvstop")], input=script + "\n")
+        rc, out = vlib.sh([impl_bin()], input=script + "\n")
         line = out.strip().split("\n")[-1]
         print("impl[%d] ->" % i, line, "| oracle:", oracle(script, line) or "ok")
     rc, out = vlib.sh([vlib.model_bin("stop")], input=script + "\n")
